@@ -48,7 +48,7 @@ def run(ctx):
     ctx.rule = RULE
     ctx.assumptions = ['handles are opened with XATTR_HANDLE_FLAG_RAW so posix_acl names carry opaque values', 'EXT2_ET_EA_NO_SPACE / ENOSPC are legal outcomes of set; the stored state must then equal the model']
     rcheck.replay_tier(ctx, ex, env=env)
-    n = int((400 if ctx.tier == 'quick' else 15000) * ctx.scale)
+    n = int((400 if ctx.tier == 'quick' else 6000) * ctx.scale)
     res = rc.run_harness(ex['c15_xattr'], ctx.seed, 16, n, 200, known_tags=rcheck.known_tags(ctx), env=env)
     ctx.res.merge(res)
 
